@@ -207,9 +207,15 @@ def worker(case, led):
             try:
                 r, m = evolve(a, H, dt, method, adaptive=True, guess_dt=dt, **extra)
                 err = np.linalg.norm(S.dense(r) - ref)
-                led.check(err <= 20 * m.evolve_config.adaptive_rtol * np.linalg.norm(v0) + bound_for(method, 0.2, m, n, np.linalg.norm(v0)),
+                rtol = m.evolve_config.adaptive_rtol
+                # the step controller accepts a sub-step when p = (rtol/err)^(1/order) >= p_restart = 0.5, i.e. with an error estimate of up to 2^order * rtol;
+                # at most 10 sub-steps of |H|dt >= 0.3 fit into |H|T = 3
+                order = 4 if method == "prop_and_compress" else 5
+                lib_bound = 10 * 2 ** order * rtol * np.linalg.norm(v0)
+                led.check(err <= 20 * rtol * np.linalg.norm(v0) + bound_for(method, 0.2, m, n, np.linalg.norm(v0)),
                           f"post:Mps.evolve[{method}]:adaptive_with_rejected_steps", f"Mps._evolve_{method}",
-                          f"|H|T=3 with initial guess_dt=T (first trials are rejected): error {err:.3e} (adaptive_rtol {m.evolve_config.adaptive_rtol})", key, {"method": method}, rep)
+                          f"|H|T=3 with initial guess_dt=T (first trials are rejected): error {err:.3e} (adaptive_rtol {rtol})", key,
+                          {"method": method, "within_step_controller_acceptance_bound": bool(err <= lib_bound)}, rep)
             except Exception as e:
                 led.check(False, f"post:Mps.evolve[{method}]:total", f"Mps._evolve_{method}", f"adaptive run with rejections raised {type(e).__name__}: {e}", key,
                           {"method": method, "adaptive": True}, rep)
@@ -323,6 +329,23 @@ def worker(case, led):
         Dn.set_evolve(A, method, M=64)
         key = (name, n, method, "mpdm")
         rep = {"model": name, "nsites": n, "method": method, "dt": dt, "seed": seed, "form": "MpDm"}
+        if method in ("tdvp_ps", "tdvp_vmf", "tdvp_mu_vmf", "tdvp_mu_cmf"):
+            # one-site schemes keep the bond dimensions of their input and are exact only on a manifold that holds the trajectory (the property's
+            # precondition "bond dimensions sufficient to hold the result"): the start state is therefore first propagated by the untruncated two-site
+            # scheme (which grows the bonds, itself checked against the dense propagator here) and brought to canonical form
+            B = A.copy()
+            Dn.set_evolve(B, "tdvp_ps2", M=256)
+            A1 = B.evolve(H, dt)
+            e2 = np.linalg.norm(S.dense(A1) - ref)
+            led.check(e2 <= bound_for("tdvp_ps2", 0.3, B, n, 1.0) * 4, "post:MpDm.evolve[tdvp_ps2]:error_within_scheme_bound", "Mps._evolve_tdvp_ps2",
+                      f"density-operator form: {e2:.3e}", key + ("ps2-prep",), {"method": "tdvp_ps2", "form": "MpDm"}, rep)
+            A = A1.canonicalise().canonicalise()
+            Ad = S.dense(A)
+            A = A.scale(1.0 / np.linalg.norm(Ad))
+            Ad = S.dense(A)
+            ref = scipy.linalg.expm(-1j * dt * Hd) @ Ad
+            Dn.set_evolve(A, method, M=256)
+            rep = dict(rep, start="the state after one untruncated tdvp_ps2 step of the same dt, canonicalised twice", bond_dims=list(A.bond_dims))
         try:
             r = A.evolve(H, dt)
             err = np.linalg.norm(S.dense(r) - ref)
